@@ -97,11 +97,13 @@ structure Lineage (txt : List Nat) (init : List (E Art S)) (p : List Art) (rules
   ok : ∀ a ∈ p, a.v.Ok
   toks : ∀ a ∈ p, a.isVal = false → a ∈ matchRegex txt
   origin : ∃ e0 ∈ init, rules = e0.rules ∧ Covers e0.prod p
+  sigs : ∀ r ∈ rules, r ∈ ruleSigs
 
-theorem applyRule_isVal (name : String) (ts : Ts) (hts : ts.Valid) (args : List Art) (hargs : ∀ a ∈ args, a.v.Ok) (x : Art)
-    (h : applyRule name ts args = .ok (some x)) : x.isVal = true := by
+theorem applyRule_isVal (rl : String × List Pred) (hrl : rl ∈ ruleSigs) (ts : Ts) (hts : ts.Valid) (args : List Art)
+    (hp : (List.zipWith predHolds rl.2 args).all id = true) (hargs : ∀ a ∈ args, a.v.Ok) (x : Art)
+    (h : applyRule rl.1 ts args = .ok (some x)) : x.isVal = true := by
   unfold applyRule at h
-  cases hr : applyRaw name ts (args.map (·.v)) with
+  cases hr : applyRaw rl.1 ts (args.map (·.v)) with
   | error e => simp [hr, bind, Except.bind] at h
   | ok o =>
     cases o with
@@ -110,11 +112,11 @@ theorem applyRule_isVal (name : String) (ts : Ts) (hts : ts.Valid) (args : List 
       simp only [hr, bind, Except.bind, pure, Except.pure] at h
       have hv : v.OkV := by
         unfold applyRaw at hr
-        cases hn : RuleId.ofName name with
+        cases hn : RuleId.ofName rl.1 with
         | none => simp [hn, throw, throwThe, MonadExceptOf.throw] at hr
         | some r =>
           simp only [hn] at hr
-          refine rules_preserve_okv r ts hts _ ?_ v hr
+          refine rules_preserve_okv r ts hts _ ?_ (argsPred_of_window rl hrl r hn args hp) v hr
           intro a ha
           simp only [List.mem_map] at ha
           obtain ⟨b, hb, rfl⟩ := ha
@@ -133,7 +135,7 @@ theorem matchRule_window (seq : List Art) (pat : List Pred) (i : Nat) (h : i ∈
 theorem lineage_init (sc : Scorer S) (depth num den : Nat) (txt : List Nat) (fuel : Nat) :
     ∀ e ∈ (initialStack sc depth num den txt fuel).1, Lineage txt (initialStack sc depth num den txt fuel).1 e.prod e.rules := by
   intro e he
-  refine ⟨initialStack_ok sc depth num den txt fuel e he, ?_, ⟨e, he, rfl, Covers.refl _⟩⟩
+  refine ⟨(initialStack_ok sc depth num den txt fuel e he).1, ?_, ⟨e, he, rfl, Covers.refl _⟩, (initialStack_ok sc depth num den txt fuel e he).2⟩
   intro a ha _
   have he' := he
   unfold initialStack at he'
@@ -149,15 +151,15 @@ theorem lineage_reach (sc : Scorer S) (ts : Ts) (hts : ts.Valid) (depth : Nat) (
   induction hr with
   | init hm => exact hinit _ hm
   | @step p t rules succs p' t' n _ hexp hmem ih =>
-    obtain ⟨r, _, i, hi, x, hx, e⟩ := expand_sound ts rules p t succs hexp _ hmem
+    obtain ⟨r, hrm, i, hi, x, hx, e⟩ := expand_sound ts rules p t succs hexp _ hmem
     have e1 : p' = p.take i ++ x :: p.drop (i + r.2.length) := by
       have := congrArg Prod.fst e; simpa using this
-    obtain ⟨hwl, _, hne⟩ := matchRule_window p r.2 i hi
+    obtain ⟨hwl, hwp, hne⟩ := matchRule_window p r.2 i hi
     have hwin : ∀ b ∈ (p.drop i).take r.2.length, b.v.Ok := fun b hb => ih.ok b (List.mem_of_mem_drop (List.mem_of_mem_take hb))
-    have hxv := applyRule_isVal r.1 ts hts _ hwin x hx
-    have hxo := applyRule_ok r.1 ts hts _ hwin x hx
+    have hxv := applyRule_isVal r (ih.sigs r hrm) ts hts _ hwp hwin x hx
+    have hxo := applyRule_ok r (ih.sigs r hrm) ts hts _ hwp hwin x hx
     subst e1
-    refine ⟨?_, ?_, ?_⟩
+    refine ⟨?_, ?_, ?_, ih.sigs⟩
     · intro a ha
       simp only [List.mem_append, List.mem_cons] at ha
       rcases ha with ha | rfl | ha
@@ -451,8 +453,8 @@ theorem expandRespects_concrete (sc : Scorer S) (ts : Ts) (hts : ts.Valid) (dept
   rw [en]
   have hwin1 : ∀ b ∈ (p1.drop i).take r.2.length, b.v.Ok := fun b hb => L1.ok b (List.mem_of_mem_drop (List.mem_of_mem_take hb))
   have hwin2 : ∀ b ∈ (p2.drop i).take r.2.length, b.v.Ok := fun b hb => L2.ok b (List.mem_of_mem_drop (List.mem_of_mem_take hb))
-  have hx1v := applyRule_isVal r.1 ts hts _ hwin1 x1 hx1
-  have hx2v := applyRule_isVal r.1 ts hts _ hwin2 x2 hx2
+  have hx1v := applyRule_isVal r hsig ts hts _ (matchRule_window p1 r.2 i hi).2.1 hwin1 x1 hx1
+  have hx2v := applyRule_isVal r hsig ts hts _ (matchRule_window p2 r.2 i hi2).2.1 hwin2 x2 hx2
   refine listEqBy_append _ _ _ _ _ (listEqBy_take _ _ _ i hreq) ?_
   simp only [listEqBy, Bool.and_eq_true]
   exact ⟨(C18.art_eq_iff x1 x2 hx1v hx2v).mpr hxv.symm, listEqBy_drop _ _ _ _ hreq⟩
